@@ -48,6 +48,8 @@ pub struct Peer {
     pub writes: Vec<ReqLog>,
     /// how many nodes to return at most
     pub k: usize,
+    /// further contacts it tells about (e.g. garbage such as port 0 or a broadcast address)
+    pub extra_nodes: Vec<(Id, SocketAddrV4)>,
 }
 
 impl Peer {
@@ -70,6 +72,7 @@ impl Peer {
             requests: vec![],
             writes: vec![],
             k: 8,
+            extra_nodes: vec![],
         }
     }
 }
@@ -186,6 +189,7 @@ pub fn opts_for(p: &Peer, from: SocketAddrV4) -> MsgOpts {
 pub fn closest_known(sh: &Shared, idx: usize, target: &Id) -> Vec<(Id, SocketAddrV4)> {
     let p = &sh.peers[idx];
     let mut nodes: Vec<(Id, SocketAddrV4)> = p.knows.iter().map(|i| (sh.peers[*i].id, sh.peers[*i].addr)).collect();
+    nodes.extend(p.extra_nodes.iter().cloned());
     nodes.sort_by_key(|n| krpc::xor(&n.0, target));
     nodes.truncate(p.k);
     nodes
